@@ -15,6 +15,11 @@ TRUSTED = [
     "EXECUTABLE-ONLY, NOT PROVED: float-valued day/hour/... fields, `*` and `/` by a float and normalized() are checked only "
     "by the oracle directly on the implementation (algebraic laws: integer-valued normal form, bounds, total preserved "
     "within 2 microseconds, exact agreement with int(field*f) recomputed in Python); no Lean theorem covers them",
+    "why no Lean theorem for float scalars: in Lean 4.33 Float + - * / and Float.ofInt reduce in the kernel on literals, but the "
+    "truncation int(x) (Float.toInt64 / floor / round) is opaque, so `int(field * f)` cannot even be evaluated, let alone "
+    "quantified; instead the oracle's scalar stream covers 0.5, 1.5, -2.5, 0.1, 1e-3, 1e-9, 1e6, 1e15, 1/3, integer-valued "
+    "floats (checked against the exact integer product and through the model op `mul` in the correspondence), bool, +-0.0 "
+    "(`*` clears the relative part, `/` ZeroDivisionError), +-inf (`*` OverflowError/ValueError, `/` clears) and nan (ValueError)",
     "mulInt is the exact integer product; the implementation computes int(field * float(k)), equal to it when |field*k| < 2**53 "
     "(the correspondence and the theorem C16.mulInt_total are restricted to that range)",
 ]
@@ -74,8 +79,11 @@ def g_tree(rng, depth, profile):
         return ("neg", g_tree(rng, depth - 1, profile))
     if r < 0.75:
         return ("abs", g_tree(rng, depth - 1, profile))
-    if r < 0.88:
+    if r < 0.83:
         return ("mul", g_tree(rng, depth - 1, profile), rng.choice([0, 1, -1, 2, -2, 3, 7, 12, 60, -60, rng.randint(-1000, 1000)]))
+    if r < 0.88:
+        # a float scalar that is an exactly representable integer: same model op (exact product while < 2**53)
+        return ("mulf", g_tree(rng, depth - 1, profile), float(rng.choice([0, 1, -1, 2, -3, 10, 60, 1000, 10 ** 6, rng.randint(-1000, 1000)])))
     td = datetime.timedelta(days=rng.randint(-500, 500), seconds=rng.randint(-90000, 90000),
                             microseconds=rng.randint(-2 * 10 ** 6, 2 * 10 ** 6))
     return ("td", g_tree(rng, depth - 1, profile), td)
@@ -107,11 +115,11 @@ def eval_tree(t, toks):
     if op == "abs":
         toks.append("abs")
         return abs(a)
-    if op == "mul":
+    if op in ("mul", "mulf"):
         if max_field(a) * abs(t[2]) >= 2 ** 53 or max_field(a) >= 2 ** 53:
             raise Inexact()
-        toks.append("mul %d" % t[2])
-        return a * t[2]
+        toks.append("mul %d" % int(t[2]))
+        return a * t[2] if op == "mul" or int(t[2]) % 2 else t[2] * a      # __mul__ and __rmul__
     if op == "td":
         td = t[2]
         toks.append("td %d %d %d" % (td.days, td.seconds, td.microseconds))
@@ -430,28 +438,104 @@ def oracle(ctx):
         if all(isinstance(v, int) for v in kw.values()) and not (nd == d):
             ctx.violation("normalized() of an integer-valued delta differs: %r -> %r" % (d, nd), case)
         # scalar * and /
-        f = rng.choice([0.5, 1.5, -2.5, 0.1, 3, -1, 1 / 3.0, rng.uniform(-10, 10)])
-        case2 = dict(case, f=f)
-        for opn in ("mul", "div"):
-            if opn == "div" and f == 0:
-                continue
-            try:
-                r = nd * f if opn == "mul" else nd / f
-            except Exception as ex:
-                ctx.violation("%s by %r raised %s" % (opn, f, type(ex).__name__), case2)
-                continue
-            ff = float(f) if opn == "mul" else 1 / float(f)
-            ctx.case((opn, repr(nd), f)); ctx.count("float_" + opn)
-            if not all(isinstance(getattr(r, k), int) for k in L.REL) or not bounds_ok(r):
-                ctx.violation("%s by a float: fields not integer-normalised: %r" % (opn, r), case2)
-            exp_us = sum(int(getattr(nd, k) * ff) * u for k, u in UNITS.items())
-            exp_m = int(nd.years * ff) * 12 + int(nd.months * ff)
-            if total_us(r) != exp_us or total_months(r) != exp_m:
-                ctx.violation("%s by a float: total differs from the field-wise int(field*f): %r" % (opn, r), case2)
+        f = rng.choice(SCALARS + [rng.uniform(-10, 10), float(rng.randint(-50, 50))])
+        check_scalar(ctx, nd, f, case)
+    for nd_kw in ({"days": 3, "hours": 5, "years": 1, "months": 2}, {}, {"seconds": -59, "microseconds": 999999, "day": 31},
+                  {"days": 10 ** 9, "hours": -23, "weekday": 2}):
+        for f in SCALARS:
+            check_scalar(ctx, relativedelta(**nd_kw), f, {"law": "float", "kw": nd_kw})
+    check_nonfinite_fields(ctx)
     ctx.sample({"law": "float", "example": repr(relativedelta(days=1.5, hours=2).normalized())})
 
 
-KNOWN = {}
+INF, NAN = float("inf"), float("nan")
+SCALARS = [0.5, 1.5, -2.5, 0.1, 1e-3, 1e-9, 1e6, -1e6, 1e15, 1 / 3.0, 2.0, -3.0, 7.0, 3, -1, True,
+           0.0, -0.0, 0, INF, -INF, NAN]
+
+
+def rel_all_zero(d):
+    return not any(getattr(d, k) for k in L.REL if k != "leapdays")
+
+
+def check_scalar(ctx, nd, f, case):
+    """`nd * f` and `nd / f` for an integer-valued delta nd and any real scalar f (EXECUTABLE-ONLY part).
+    finite f != 0 : each relative field is int(field * f) (resp. int(field * (1/f))), then normalised; for an
+                    integer-valued f with |field*f| < 2**53 that is the exact integer product (= the model's mulInt)
+    f == 0        : `*` clears the relative part, `/` raises ZeroDivisionError
+    f = +-inf     : `*` must raise (OverflowError; ValueError when a field is 0: 0*inf = nan), `/` multiplies by 0.0
+    f = nan       : both must raise ValueError — never a value with a non-finite field"""
+    case2 = dict(case, f=repr(f))
+    for opn in ("mul", "div"):
+        ctx.case((opn, repr(nd), repr(f))); ctx.count("float_" + opn)
+        try:
+            r = (nd * f if opn == "mul" else nd / f)
+            err = None
+        except Exception as ex:
+            r, err = None, type(ex).__name__
+        cls = "nan" if f != f else "inf" if f in (INF, -INF) else "zero" if f == 0 else "finite"
+        ctx.count("scalar_%s_%s" % (cls, opn))
+        if cls == "nan":
+            if err != "ValueError":
+                ctx.violation("%s by nan: %s" % (opn, err or repr(r)), case2)
+            continue
+        if cls == "inf" and opn == "mul":
+            if err not in ("OverflowError", "ValueError"):
+                ctx.violation("mul by %r: %s" % (f, err or repr(r)), case2)
+            continue
+        if cls == "zero" and opn == "div":
+            if err != "ZeroDivisionError":
+                ctx.violation("division by zero: %s" % (err or repr(r)), case2)
+            continue
+        if err:
+            ctx.violation("%s by %r raised %s" % (opn, f, err), case2)
+            continue
+        ff = float(f) if opn == "mul" else 1 / float(f)
+        if not all(isinstance(getattr(r, k), int) for k in L.REL) or not bounds_ok(r) or not has_time_ok(r):
+            ctx.violation("%s by %r: fields not integer-normalised: %r" % (opn, f, r), case2)
+            continue
+        exp_us = sum(int(getattr(nd, k) * ff) * u for k, u in UNITS.items())
+        exp_m = int(nd.years * ff) * 12 + int(nd.months * ff)
+        if total_us(r) != exp_us or total_months(r) != exp_m:
+            ctx.violation("%s by %r: total differs from the field-wise int(field*f): %r" % (opn, f, r), case2)
+        if any(getattr(r, k) != getattr(nd, k) for k in L.ABS) or r.weekday != nd.weekday or r.leapdays != nd.leapdays:
+            ctx.violation("%s by %r changed an absolute field / weekday / leapdays" % (opn, f), case2)
+        if (cls == "zero" or (cls == "inf" and opn == "div")) and not rel_all_zero(r):
+            ctx.violation("%s by %r should clear the relative part: %r" % (opn, f, r), case2)
+        if opn == "mul" and cls == "finite" and float(f) == int(f) and max_field(nd) * abs(int(f)) < 2 ** 53:
+            ctx.count("scalar_exact_integer_float")
+            k = int(f)
+            if total_us(r) != total_us(nd) * k or total_months(r) != total_months(nd) * k or not (r == nd * k) \
+                    or not ((f * nd) == r):
+                ctx.violation("multiplication by the integer-valued scalar %r is not the exact integer product" % (f,), case2)
+
+
+def check_nonfinite_fields(ctx):
+    """inf / nan passed as a relative field.  What the property needs: either the constructor rejects the value
+    (as it must for years/months: ValueError) or the object it returns is a well-behaved value (normal form, d == d)."""
+    from dateutil.relativedelta import relativedelta
+    for fld in ("years", "months", "days", "weeks", "hours", "minutes", "seconds", "microseconds"):
+        for v in (INF, -INF, NAN):
+            case = {"law": "nonfinite_field", "field": fld, "value": repr(v)}
+            ctx.case(("nonfinite", fld, repr(v)), nontrivial=False); ctx.count("nonfinite_field_cases")
+            try:
+                d = relativedelta(**{fld: v})
+            except ValueError:
+                ctx.count("nonfinite_rejected_ValueError")
+                continue
+            except Exception as ex:
+                ctx.violation("relativedelta(%s=%r) raised %s, not ValueError" % (fld, v, type(ex).__name__), case)
+                continue
+            finite = all(isinstance(getattr(d, k), int) or math.isfinite(getattr(d, k)) for k in L.REL)
+            if not finite or not bounds_ok(d) or not (d == d):
+                ctx.violation("relativedelta(%s=%r) is accepted and yields %r: non-finite / not normalised / d != d"
+                              % (fld, v, d), case)
+
+
+KNOWN = {
+    # a non-finite float (inf / nan) as a relative keyword argument: accepted silently for days..microseconds
+    # (NaN fields, `d == d` False), OverflowError instead of ValueError for years/months = +-inf
+    "D-C16-nonfinite": lambda v: v["case"].get("law") == "nonfinite_field",
+}
 
 
 def replay(ctx, payload):
@@ -472,6 +556,13 @@ def replay(ctx, payload):
         print("a=%r b=%r a==b:%s hash-equal:%s" % (a, b, a == b, hash(a) == hash(b)))
         if (a == b) != (hash(a) == hash(b)):
             sub.violation("wdspell", c)
+    elif law == "nonfinite_field":
+        check_nonfinite_fields(sub)
+        sub.violations = [v for v in sub.violations if v["case"]["field"] == c["field"] and v["case"]["value"] == c["value"]]
+    elif law == "float" and "f" in c:
+        f = float(c["f"]) if c["f"] not in ("True", "False") else (c["f"] == "True")
+        nd = relativedelta(**L.kw_unjson(c["kw"])).normalized()
+        check_scalar(sub, nd, f, c)
     else:
         print("replay of law %r: re-run ./check C16 with seed %s" % (law, payload.get("seed")))
         return False
